@@ -33,6 +33,7 @@ structure Sv where
   authLines : List Bytes := []                    -- lines received while locked (other than password)
   binLimit : Option Nat := none                   -- set by `binarylimit N`: overrides the URI's chunk limit
   marks : List Nat := []                          -- end offsets of the complete responses written so far
+  blockKinds : List Bool := []                    -- per executed block: was it a command list
 deriving Repr, Inhabited
 
 /-- deterministic picture bytes (contain protocol look-alikes) -/
@@ -163,7 +164,7 @@ def respond (s : Sv) (cmds : List Bytes) (isList : Bool) : Sv :=
   let start := s.out.length
   let (reply, lim) := replyBlockL s.binLimit cmds isList
   let s := emitOut s reply
-  { s with blocks := s.blocks ++ [(cmds, start, s.out.length)], binLimit := lim }
+  { s with blocks := s.blocks ++ [(cmds, start, s.out.length)], blockKinds := s.blockKinds ++ [isList], binLimit := lim }
 
 def isPassword (l : Bytes) : Option Bytes :=
   match Spec.Tok.tokenizeLine l with
